@@ -32,6 +32,10 @@ THEOREMS = [
     "PorepyVerif.C04.total_residual_eq_total_accumulation",
     "PorepyVerif.C04.upwind_neumann_consistent",
     "PorepyVerif.C04.total_residual_eq_total_accumulation_upwind",
+    "PorepyVerif.C04.tpfa_neumann_consistent",
+    "PorepyVerif.C04.adtpfa_neumann_consistent",
+    "PorepyVerif.C04.adtpfa_shipped_gain_zero",
+    "PorepyVerif.C04.total_residual_eq_total_accumulation_coded",
     "PorepyVerif.C04.closed_no_source_conservation",
     "PorepyVerif.C04.converged_step_conserves",
 ]
@@ -41,7 +45,8 @@ DRIVER = "PorepyVerif/C04/Driver.lean"
 N = {"quick": 12, "thorough": 400}
 
 RULE = ("case = configuration (2-D, 0-3 fractures incl. crossing / T / immersed / through-going; Cartesian, gmsh simplex, "
-        "non-matching Cartesian with refined fracture and mortar grids) x model (SinglePhaseFlow: mass balance; "
+        "non-matching Cartesian with refined fracture and mortar grids; thorough tier also 3-D Cartesian cubes with 1-2 fracture planes) "
+        "x flux laws (standard, or the differentiable DarcysLawAd / FouriersLawAd variants) x model (SinglePhaseFlow: mass balance; "
         "MassAndEnergyBalance: mass and energy balance) x fluid (compressible + thermal expansion / incompressible) x flux "
         "discretisation (Mpfa default / Tpfa) x state (seeded random pressure, temperature and interface fluxes at the iterate "
         "AND at the previous time step, amplitude 0.01-5, dt dyadic 1/4-8, upwind directions consistent with the state or "
@@ -53,16 +58,19 @@ TRUSTED = [
     "interface upwinding) have the form H3 'own flux + B P_pm lambda' with own flux vanishing on closed boundary faces - checked per sample "
     "only (leftover flux on boundary faces, external source and net creation per interface are computed exactly by the Lean "
     "model from the real sub-operator values and must vanish to 1e-9 relative)",
-    "Neumann consistency (1^T D B = 1 on fracture faces) of Tpfa/Mpfa bound_flux is a hypothesis of the theorem, checked numerically "
-    "per sample on the real matrices (exact for the upwind matrix, which is modelled as coded and proved consistent from H1)",
+    "Neumann consistency (1^T D B = 1 on fracture faces) of the Mpfa bound_flux is a hypothesis of the theorem, checked numerically "
+    "per sample on the real matrices; for the upwind rhs_neu, the Tpfa bound_flux and the (repaired) differentiable-Tpfa boundary matrix it is "
+    "PROVED from H1 for the matrices as coded, and the coded matrices are compared entry by entry with the real ones (upwind, Tpfa)",
     "porepy's AD machinery (operator parsing, Divergence / projection block assembly) is used to evaluate the sub-operators; the block "
     "matrices sent to Lean are taken from the grids (sd.cell_faces, intf.mortar_to_*_int) and the data dictionaries, not from the AD wrappers",
     "binary64 rounding: the Lean model combines the float values of the sub-operators exactly; comparison with the real residual "
     "uses 1e-9 relative to the magnitude of the terms",
 ]
 EXPLANATION = ("CORE: theorem total_residual_eq_total_accumulation over Q for any md-graph (any number of subdomains and interface "
-               "fluxes): H2 + Neumann consistency + closed boundary => sum of residuals = sum of accumulation rate - sources; the "
-               "upwind variant derives Neumann consistency from H1 and the coded sign matrix. Tie: hypotheses evaluated exactly on "
+               "fluxes): H2 + Neumann consistency + closed boundary => sum of residuals = sum of accumulation rate - sources; "
+               "total_residual_eq_total_accumulation_coded needs only H1+H2+H4 when every boundary matrix is one of the coded ones (upwind "
+               "rhs_neu, Tpfa bound_flux, repaired differentiable Tpfa); adtpfa_shipped_gain_zero shows why FouriersLawAd as shipped is not "
+               "conservative (open finding). Tie: hypotheses evaluated exactly on "
                "the real matrices by the Lean driver, residual recombined by the Lean model from real sub-operator values and "
                "compared with the real residual, conclusion checked directly on EquationSystem.evaluate (oracle). Partial: the flux "
                "constitutive laws are not modelled, only their decomposition is checked per sample.")
@@ -97,6 +105,12 @@ CONFIGS = {
     "simplex_f2_cross": {"geo": "free", "grid": "simplex", "mesh": _SQ, "fracs": [H1F, V2]},
     "simplex_f3": {"geo": "free", "grid": "simplex", "mesh": _S, "fracs": [H1F, V2, TILT]},
 }
+CONFIGS.update({
+    # 3-D Cartesian 2x2x2 (test-suite mixin CubeDomainOrthogonalFractures): one fracture plane / two crossing planes (1-D intersection line)
+    "cube_f1": {"geo": "cube", "grid": "cartesian", "fracture_indices": [0]},
+    "cube_f2_cross": {"geo": "cube", "grid": "cartesian", "fracture_indices": [0, 1]},
+})
+THREE_D = ["cube_f1", "cube_f2_cross"]
 CARTESIAN_FRACTURED = ["cart_f1_through", "cart_f1_immersed", "cart_f2_cross", "cart_f3"]
 NONMATCHING = ["nonmatch_f1", "nonmatch_f2", "nonmatch_f1_coarse"]
 SIMPLEX_QUICK = ["simplex_f1", "simplex_f2_cross"]
@@ -111,12 +125,13 @@ _MODELS: dict = {}
 _EVAL: dict = {}
 
 
-def _build_model(config, kind, compressible, tpfa):
-    key = (config, kind, bool(compressible), bool(tpfa))
+def _build_model(config, kind, compressible, tpfa, ad_flux=False):
+    key = (config, kind, bool(compressible), bool(tpfa), bool(ad_flux))
     if key in _MODELS:
         return _MODELS[key]
     import porepy as pp
-    from porepy.applications.md_grids.model_geometries import NonMatchingSquareDomainOrthogonalFractures
+    from porepy.applications.md_grids.model_geometries import (CubeDomainOrthogonalFractures,
+                                                                NonMatchingSquareDomainOrthogonalFractures)
 
     cfg = CONFIGS[config]
     tmp = tempfile.mkdtemp(prefix="c04_gmsh_")
@@ -163,8 +178,12 @@ def _build_model(config, kind, compressible, tpfa):
             return pp.ad.TpfaAd(self.fourier_keyword, subdomains)
 
     physics = pp.SinglePhaseFlow if kind == "flow" else pp.MassAndEnergyBalance
-    geo = FreeGeometry if cfg["geo"] == "free" else NonMatchingSquareDomainOrthogonalFractures
-    bases = (geo, ClosedBoundary) + ((TpfaFluxes,) if tpfa else ()) + (physics,)
+    geo = {"free": FreeGeometry, "nonmatching": NonMatchingSquareDomainOrthogonalFractures, "cube": CubeDomainOrthogonalFractures}[cfg["geo"]]
+    # differentiable flux laws (AdTpfaFlux): DarcysLawAd, and FouriersLawAd for the energy balance
+    ad = ()
+    if ad_flux:
+        ad = (pp.constitutive_laws.DarcysLawAd,) + ((pp.constitutive_laws.FouriersLawAd,) if kind == "thermal" else ())
+    bases = (geo, ClosedBoundary) + ((TpfaFluxes,) if tpfa else ()) + ad + (physics,)
     Model = type("C04Model", bases, {})
     params = {
         "times_to_export": [],
@@ -172,6 +191,8 @@ def _build_model(config, kind, compressible, tpfa):
                                "solid": pp.SolidConstants(**SOLID)},
         "reference_variable_values": pp.ReferenceVariableValues(pressure=0.1, temperature=0.2),
     }
+    if cfg["geo"] == "cube":
+        params.update({"fracture_indices": cfg["fracture_indices"], "grid_type": "cartesian", "meshing_arguments": {"cell_size": 0.5}})
     if cfg["geo"] == "nonmatching":
         params.update({"fracture_indices": cfg["fracture_indices"], "grid_type": "cartesian",
                        "meshing_arguments": {"cell_size": 0.5},
@@ -212,13 +233,14 @@ def gen_case(rng, tier):
             for k, p in enumerate(plan):
                 p["compressible"] = (k + flip) % 2 == 0
                 p["tpfa"] = rng.random() < 0.3
+                p["ad_flux"] = (k == 3)  # DarcysLawAd in the flow model; FouriersLawAd is covered by the replayed finding / corpus case
             _PLAN[tier] = {"plan": plan, "k": 0}
         st = _PLAN[tier]
         base = st["plan"][st["k"] % len(st["plan"])]
         st["k"] += 1
     else:
         base = {"config": rng.choice(list(CONFIGS)), "kind": rng.choice(["flow", "thermal"]),
-                "compressible": rng.random() < 0.5, "tpfa": rng.random() < 0.3}
+                "compressible": rng.random() < 0.5, "tpfa": rng.random() < 0.3, "ad_flux": rng.random() < 0.25}
     c = dict(base)
     c.update(_state(rng))
     return c
@@ -256,7 +278,7 @@ def _set_state(m, case):
     m.update_derived_quantities()
 
 
-def _operators(m):
+def _operators(m, fourier_chan="bound_flux"):
     """The named sub-operators of every balance equation of the model (built once per model)."""
     if hasattr(m, "_c04_ops"):
         return m._c04_ops
@@ -272,7 +294,7 @@ def _operators(m):
         acc = m.volume_integral(m.total_internal_energy(sds), sds, dim=1)
         ops["energy"] = {"name": "energy_balance_equation", "acc": acc, "acc_prev": acc.previous_timestep(),
                          "flux": m.energy_flux(sds), "source": m.energy_source(sds),
-                         "lams": [("bound_flux", m.fourier_keyword, m.interface_fourier_flux(intfs)),
+                         "lams": [(fourier_chan, m.fourier_keyword, m.interface_fourier_flux(intfs)),
                                   ("upwind", m.enthalpy_keyword, m.interface_enthalpy_flux(intfs))] if intfs else [],
                          "upwind_kw": m.enthalpy_keyword}
     m._c04_ops = ops
@@ -292,8 +314,11 @@ def _evaluate(case):
     import porepy as pp
     import scipy.sparse as sps
 
-    m = _build_model(case["config"], case["kind"], case["compressible"], case["tpfa"])
+    ad_flux = bool(case.get("ad_flux", False))
+    m = _build_model(case["config"], case["kind"], case["compressible"], case["tpfa"], ad_flux)
     _set_state(m, case)
+    # how the interface Fourier flux enters the face fluxes: differentiable Tpfa (repaired form, see finding), Tpfa as coded, or Mpfa
+    fourier_chan = "adtpfa" if ad_flux else ("tpfa" if case["tpfa"] else "bound_flux")
     es = m.equation_system
     mdg = m.mdg
     sds = mdg.subdomains()
@@ -305,7 +330,7 @@ def _evaluate(case):
     nms = [int(i.num_cells) for i in intfs]
     out = {"eqs": {}, "sizes": {"cells": ncs, "faces": nfs, "mortar": nms, "dims": [sd.dim for sd in sds]}}
     Ds = [sps.csr_matrix(sd.cell_faces.T, dtype=float) if sd.dim > 0 else sps.csr_matrix((sd.num_cells, 0)) for sd in sds]
-    for eq, o in _operators(m).items():
+    for eq, o in _operators(m, fourier_chan).items():
         r = _split(ev(es.equations[o["name"]]), ncs)
         a1 = _split(ev(o["acc"]), ncs)
         a0 = _split(ev(o["acc_prev"]), ncs)
@@ -331,15 +356,43 @@ def _evaluate(case):
                 ip, isec = sds.index(sd_p), sds.index(sd_s)
                 Ppm = sps.csr_matrix(intf.mortar_to_primary_int())
                 Psm = sps.csr_matrix(intf.mortar_to_secondary_int())
-                mats = mdg.subdomain_data(sd_p)[pp.DISCRETIZATION_MATRICES][kw]
-                B = sps.csc_matrix(mats["rhs_neu"] if chan == "upwind" else mats["bound_flux"])
+                dp = mdg.subdomain_data(sd_p)
+                mats = dp[pp.DISCRETIZATION_MATRICES][kw]
+                colsum = np.asarray(Ds[ip].sum(axis=0)).ravel()
+                coded = {}
+                real_diag = None
+                if chan == "upwind":
+                    B = sps.csc_matrix(mats["rhs_neu"])
+                    coded = {"coded": "upwind"}
+                    real_diag = B.diagonal() if abs(B - sps.diags(B.diagonal())).sum() == 0 else np.full(B.shape[0], np.nan)
+                elif chan == "tpfa":
+                    B = sps.csc_matrix(mats["bound_flux"])
+                    bc = dp[pp.PARAMETERS][kw]["bc"]
+                    bnd = np.zeros(sd_p.num_faces, dtype=bool); bnd[sd_p.get_all_boundary_faces()] = True
+                    neu_eff = np.logical_or(bc.is_neu, bc.is_internal)
+                    real_diag = B.diagonal() if abs(B - sps.diags(B.diagonal())).sum() == 0 else np.full(B.shape[0], np.nan)
+                    tdir = np.zeros(sd_p.num_faces)
+                    dirf = bnd & ~neu_eff & (colsum != 0)
+                    tdir[dirf] = -real_diag[dirf] / colsum[dirf]
+                    coded = {"coded": "tpfa", "bnd": bnd, "neu": neu_eff, "tdir": tdir}
+                elif chan == "adtpfa":
+                    # AdTpfaFlux.diffusive_flux: t_bnd = (external_neu_filter + internal_boundary_filter) * bnd_sgn (+ Dirichlet part);
+                    # the shipped code omits internal_boundary_filter (finding FouriersLawAd); the model follows the property
+                    bc = dp[pp.PARAMETERS][kw]["bc"]
+                    ext = np.asarray(sd_p.tags["domain_boundary_faces"], dtype=bool)
+                    intb = np.asarray(sd_p.tags["fracture_faces"], dtype=bool)
+                    ext_neu, ext_dir = ext & bc.is_neu, ext & bc.is_dir
+                    B = sps.csc_matrix(sps.diags(colsum * (ext_neu.astype(float) + intb.astype(float))))
+                    coded = {"coded": "adtpfa", "extNeu": ext_neu, "extDir": ext_dir, "intb": intb, "tf": np.ones(sd_p.num_faces)}
+                else:
+                    B = sps.csc_matrix(mats["bound_flux"])
                 y = Ppm @ lam[j]
                 F[ip] -= B @ y
                 src[isec] -= Psm @ lam[j]
                 targets = np.unique(Ppm.nonzero()[0])
                 mask = np.zeros(B.shape[1]); mask[targets] = 1.0
                 cps.append({"chan": chan, "prim": ip, "sec": isec, "nm": nms[j], "Ppm": Ppm.tocoo(), "Psm": Psm.tocoo(),
-                            "B": (B @ sps.diags(mask)).tocoo(), "lam": lam[j], "intf": j})
+                            "B": (B @ sps.diags(mask)).tocoo(), "lam": lam[j], "intf": j, "coded": coded, "real_diag": real_diag})
         # magnitude of the terms (for tolerances)
         terms = sum(float(np.abs((a1[i] - a0[i]) / dt).sum() + (abs(Ds[i]) @ np.abs(flux[i])).sum() + np.abs(source[i]).sum())
                     for i in range(len(sds)))
@@ -383,6 +436,7 @@ def impl_run(case):
             "src": 0.0, "outflow": 0.0, "net": [0.0] * len(e["cps"]),
             "h1": h1, "h2dev": h2dev, "targets": targets, "gaindev": gaindev,
             "upwindB": [[float(x) for x in u] for u in e["upw_real"]],
+            "Bdiag": [None if cp["real_diag"] is None else [float(x) for x in cp["real_diag"]] for cp in e["cps"]],
             "scale": e["scale"],
         }
     return res
@@ -402,8 +456,10 @@ def model_ops(case):
         for cp in e["cps"]:
             d = {"prim": cp["prim"], "sec": cp["sec"], "nm": cp["nm"], "Ppm": _trip(cp["Ppm"]), "Psm": _trip(cp["Psm"]),
                  "lam": [frac(x) for x in cp["lam"]]}
-            if cp["chan"] == "upwind":
-                d["upwind"] = True  # the driver uses `upwindNeu` (sign handling as coded) and reports it for comparison
+            if cp["coded"]:
+                # the driver builds the boundary matrix AS CODED (upwindNeu / tpfaBoundFlux / adTpfaBound) from D and the flags
+                for k, v in cp["coded"].items():
+                    d[k] = v if isinstance(v, str) else ([frac(x) for x in v] if v.dtype == float else [int(x) for x in v])
             else:
                 d["B"] = _trip(cp["B"])
             cps.append(d)
@@ -450,6 +506,9 @@ def compare(impl, model, case):
             for j, (x, y) in enumerate(zip(a[k], b[k])):
                 if abs(x - f(y)) > 1e-12 or f(y) > lim:
                     return f"{eq}: {k} of coupling {j}: numpy {x} Lean {f(y)} (limit {lim})"
+        for j, (da, db) in enumerate(zip(a["Bdiag"], b["Bdiag"])):
+            if da is not None and (len(da) != len(db) or any(not (x == f(y)) for x, y in zip(da, db))):
+                return f"{eq}: boundary matrix of coupling {j} (rhs_neu / Tpfa bound_flux) differs from the coded model: real {da} model {[str(y) for y in db]}"
         if len(a["upwindB"]) != len(b["upwindB"]):
             return f"{eq}: upwindB length"
         for i, (ua, ub) in enumerate(zip(a["upwindB"], b["upwindB"])):
@@ -467,12 +526,41 @@ def oracle(case):
         total = sum(float(ri.sum()) for ri in e["r"])
         acc = sum(float(((e["a1"][i] - e["a0"][i]) / e["dt"]).sum()) for i in range(len(e["r"])))
         if not (abs(total - acc) <= RTOL * e["scale"]):
+            if eq == "energy" and case.get("ad_flux") and _adtpfa_signature(e, total - acc):
+                return {"what": (f"energy balance with FouriersLawAd not conservative on {case['config']}: sum of residuals {total!r} vs total "
+                                 f"accumulation rate {acc!r}; the difference {total - acc:.6g} is exactly the interface Fourier flux that is "
+                                 f"missing on the fracture faces of the higher-dimensional subdomains"),
+                        "key": "energy-not-conserved:FouriersLawAd:interface-fourier-flux-missing-on-fracture-faces"}
             nfr = len(CONFIGS[case["config"]].get("fracs", CONFIGS[case["config"]].get("fracture_indices", [])))
             return {"what": (f"{eq} balance not conservative on {case['config']} ({case['kind']}, compressible={case['compressible']}, "
                              f"tpfa={case['tpfa']}, state_seed={case['state_seed']}): sum of residuals {total!r} vs total accumulation rate "
                              f"{acc!r} (difference {total - acc:.6g}, magnitude of terms {e['scale']:.6g})"),
-                    "key": f"{eq}-not-conserved:{case['kind']}:{case['config']}:fractures={nfr}"}
+                    "key": f"{eq}-not-conserved:{case['kind']}{'-adflux' if case.get('ad_flux') else ''}:{case['config']}:fractures={nfr}"}
     return None
+
+
+def _adtpfa_signature(e, diff):
+    """Diagnosed cause of the FouriersLawAd finding, checked face by face: on every boundary face the flux left over after
+    subtracting the interface contributions (with the REPAIRED boundary matrix) is either zero or exactly minus the Fourier
+    interface contribution of that face (i.e. that contribution is entirely absent from the real flux), at least one is
+    absent, and the absent ones account for the whole conservation defect."""
+    tol = RTOL * e["scale"]
+    leak, absent = 0.0, 0
+    for i, F in enumerate(e["F"]):
+        miss = np.zeros_like(F)
+        for cp in e["cps"]:
+            if cp["chan"] == "adtpfa" and cp["prim"] == i:
+                miss += cp["B"].tocsr() @ (cp["Ppm"].tocsr() @ cp["lam"])
+        cs = np.asarray(e["D"][i].sum(axis=0)).ravel()
+        for f in np.nonzero(cs)[0]:
+            if abs(F[f]) <= tol:
+                continue
+            if abs(F[f] + miss[f]) > tol:
+                return False
+            absent += 1
+            leak += cs[f] * F[f]
+    src_left = sum(float(np.abs(s).sum()) for s in e["src"])
+    return absent > 0 and abs(diff - leak) <= tol and src_left <= tol
 
 
 def nontrivial(case):
@@ -501,6 +589,8 @@ def shrink_candidates(case):
         yield dict(case, amp=1.0)
     if case["tpfa"] is False:
         yield dict(case, tpfa=True)
+    if case.get("ad_flux"):
+        yield dict(case, ad_flux=False)
 
 
 def stats(cases, impl_outs):
@@ -511,6 +601,7 @@ def stats(cases, impl_outs):
         c["kind:" + k["kind"]] += 1
         c["compressible" if k["compressible"] else "incompressible"] += 1
         c["tpfa" if k["tpfa"] else "mpfa"] += 1
+        c["ad_flux" if k.get("ad_flux") else "standard_flux"] += 1
         c["upwind_consistent" if k["consistent_upwind"] else "upwind_stale"] += 1
         c["special:" + k.get("special", "none")] += 1
         c[f"amp:{k['amp']}"] += 1
